@@ -60,11 +60,19 @@ Theorem C08_segments_account_for_width : forall st width curw refw fc0 docur,
 Proof. exact fill_counts_spec. Qed.
 Print Assumptions C08_segments_account_for_width.
 
-(* PARTIAL: "equals width*current/total rounded to the nearest cell" is proved as
-   "is math.Round of the binary64 quotient" (C08_cells_is_rounded_quotient); the
-   bound |cells - w*c/t| <= 1/2 + 2^-19 on the accumulated rounding error of the
-   three float operations is not proved here; it is checked on every
-   implementation observation by the monitor of ./check C08. *)
+(* "rounded to the nearest cell": the count is within half a cell of the exact quotient width*current/total, plus the
+   accumulated error of the five float64 roundings (relative 7*2^-53; less than two millionths of a cell for widths < 2^31) *)
+Theorem C08_cells_nearest : forall t c w,
+  1 <= t < 2^63 -> 0 <= c < t -> 0 <= w < 2^31 ->
+  (Rabs (IZR (cells t c w) - IZR w * IZR c / IZR t) <= /2 + IZR w * IZR c / IZR t * (7 * eps))%R.
+Proof. exact cells_nearest. Qed.
+Print Assumptions C08_cells_nearest.
+
+Theorem C08_cells_nearest_abs : forall t c w,
+  1 <= t < 2^63 -> 0 <= c < t -> 0 <= w < 2^31 ->
+  (Rabs (IZR (cells t c w) - IZR w * IZR c / IZR t) <= /2 + / 500000)%R.
+Proof. exact cells_nearest_abs. Qed.
+Print Assumptions C08_cells_nearest_abs.
 
 Example C08_nonvacuous :
   cells 9223372036854775807 4611686018427387904 80 = 40 /\ cells 100 33 78 = 26 /\
